@@ -97,6 +97,16 @@ package ecmascript
 //@   recovered
 //@   modifies[C10,C12] nothing
 //@   writes[C10,C12] nothing
+// What the script gets back from _.match has been through JSON (so that
+// whatever it keeps of it in its bindings is the same before and after a
+// reload): it is the result of this call's last canonicalize.
+//@   ensures[C09] canonical: r == lastret("interpreters/ecmascript.canonicalize", y)
+
+// canonicalize: the JSON round trip used by the environment functions.
+//@ func canonicalize returns y, err
+//@   safety C07
+//@   logged
+//@   modifies nothing
 
 // The watcher goroutine of Exec: touches only the runtime.
 //@ func (*Interpreter).Exec$8
